@@ -17,7 +17,7 @@ def contract(qualname, params=None, returns=None, requires=(), ensures=(), modif
              raises=(), loops=None, locals=None, ghost=None, trusted=False, note="",
              exc_ensures=None, inline=(), pure=False, decreases=None, fresh=False,
              ghost_vars=None, ghost_code=(), ghost_returns=None, raises_when=None, writes_fresh=(),
-             native_ensures=None, native_requires=None, functional=None, internal_ensures=(), param_attrs=None, rec_group=None, case_split=(), descends_to=None):
+             native_ensures=None, native_requires=None, functional=None, internal_ensures=(), param_attrs=None, rec_group=None, case_split=(), descends_to=None, callee_variants=None):
     """Register a contract for the real function `qualname` (module path + function / Class.method).
 
     params    {name: type-string}            types of the symbolic inputs
@@ -34,6 +34,9 @@ def contract(qualname, params=None, returns=None, requires=(), ensures=(), modif
                                              parameter is the constant None or a value of the plain type
     descends_to key                          a variant of a recursive function whose recursive calls are met with ANOTHER contract of the
                                              same function (registered under `key`), one under which the function does not recurse
+    callee_variants {qualname: tag}         which variant (`qualname:tag`) of a callee's contract this function's calls are met with; the
+                                             variant's preconditions are obligations at each call as usual (default: the first variant whose
+                                             parameter types fit)
     rec_group name                           functions that call each other recursively share a group: a call to a member of the
                                              caller's group must decrease the measure (callee's measure of the arguments < caller's on entry)
     """
@@ -46,7 +49,8 @@ def contract(qualname, params=None, returns=None, requires=(), ensures=(), modif
              ghost_code=list(ghost_code), ghost_returns=dict(ghost_returns or {}), raises_when=dict(raises_when or {}),
              writes_fresh=list(writes_fresh), native_ensures=native_ensures, native_requires=native_requires,
              functional=functional, internal_ensures=list(internal_ensures), param_attrs=dict(param_attrs or {}),
-             rec_group=rec_group, case_split=list(case_split), descends_to=descends_to)
+             rec_group=rec_group, case_split=list(case_split), descends_to=descends_to,
+             callee_variants=dict(callee_variants or {}))
     CONTRACTS[qualname] = c
     return c
 
